@@ -26,6 +26,7 @@ import (
 	"strings"
 	"sync"
 	"sync/atomic"
+	"syscall"
 	"testing"
 	"time"
 
@@ -144,6 +145,14 @@ func (h *handler) Deactivated() {}
 type faultConn struct {
 	net.Conn
 	failClose bool
+	failWrite atomic.Pointer[error] // once set, every Write fails with it
+}
+
+func (f *faultConn) Write(b []byte) (int, error) {
+	if e := f.failWrite.Load(); e != nil {
+		return 0, *e
+	}
+	return f.Conn.Write(b)
 }
 
 func (f *faultConn) Close() error {
@@ -159,6 +168,7 @@ type rig struct {
 	conn    netmc.MinecraftConn
 	loop    func()
 	far     net.Conn
+	fc      *faultConn
 	h       *handler
 	rlDone  chan struct{} // the read loop returned
 	injDone chan struct{} // the peer goroutine of readLoop finished
@@ -166,10 +176,11 @@ type rig struct {
 
 func newRig(tw *lineWriter, st *stats, withHandler, failClose bool) *rig {
 	a, b := net.Pipe()
-	conn, loop := netmc.NewMinecraftConn(context.Background(), &faultConn{Conn: a, failClose: failClose}, proto.ServerBound,
+	fc := &faultConn{Conn: a, failClose: failClose}
+	conn, loop := netmc.NewMinecraftConn(context.Background(), fc, proto.ServerBound,
 		20*time.Second, 20*time.Second, -1, nil)
 	conn.SetProtocol(version.Minecraft_1_20_2.Protocol)
-	r := &rig{tw: tw, conn: conn, loop: loop, far: b, rlDone: make(chan struct{}), injDone: make(chan struct{})}
+	r := &rig{tw: tw, conn: conn, loop: loop, far: b, fc: fc, rlDone: make(chan struct{}), injDone: make(chan struct{})}
 	r.h = &handler{core: &core{tw: tw, plan: map[int]string{}, thrown: st.Panics}, name: "h0"}
 	if withHandler {
 		conn.SetActiveSessionHandler(state.Play, r.h)
@@ -217,6 +228,16 @@ func (r *rig) op(thread, kind string, faults []string, closeBy string) {
 	case "write":
 		r.tw.Emit(tracefmt.Rec{"ev": "call", "thread": thread, "op": "write"})
 		err := r.conn.WritePacket(&packet.KeepAlive{RandomID: 9})
+		r.tw.Emit(tracefmt.Rec{"ev": "ret", "thread": thread, "res": resOf(err), "err": errText(err)})
+	case "wreset", "wclosed":
+		// from now on the socket refuses writes the way a reset / closed TCP socket does
+		var e error = &net.OpError{Op: "write", Net: "tcp", Err: syscall.ECONNRESET}
+		if kind == "wclosed" {
+			e = &net.OpError{Op: "write", Net: "tcp", Err: net.ErrClosed}
+		}
+		r.fc.failWrite.Store(&e)
+		r.tw.Emit(tracefmt.Rec{"ev": "call", "thread": thread, "op": "write", "fault": kind})
+		err := r.conn.WritePacket(&packet.KeepAlive{RandomID: 13})
 		r.tw.Emit(tracefmt.Rec{"ev": "ret", "thread": thread, "res": resOf(err), "err": errText(err)})
 	case "switch", "switchw", "switchreg":
 		// a second counting handler takes over; with "switchw" its Activated() writes a packet
@@ -294,6 +315,21 @@ func (r *rig) readLoop(thread string, faults []string, closeBy string) {
 
 // finish: a final Close and a write after it, wait for the read loop, end.
 func (r *rig) finish(loopStarted bool) {
+	// everything came to rest: if the connection reports closed, the read loop ends too
+	if r.conn.Context().Err() != nil && loopStarted {
+		select {
+		case <-r.rlDone:
+		case <-time.After(20 * time.Second):
+			r.tw.Emit(tracefmt.Rec{"ev": "hung", "what": "read loop did not exit after close"})
+		}
+		select {
+		case <-r.injDone:
+		case <-time.After(30 * time.Second):
+			r.tw.Emit(tracefmt.Rec{"ev": "hung", "what": "peer goroutine did not finish"})
+		}
+	}
+	r.tw.Emit(tracefmt.Rec{"ev": "settled"})
+	r.op("main", "write", nil, "") // a write after whatever happened so far
 	r.op("main", "close", nil, "")
 	r.op("main", "write", nil, "")
 	r.op("main", "switch", nil, "") // a handler switch on the closed connection tears nothing down again
@@ -333,8 +369,18 @@ func runSchedule(tw *lineWriter, st *stats, n int, s schedule, step time.Duratio
 	// without injected packets a plain switch may as well go through SwitchSessionHandler
 	// (the config registry; packets of the play registry would no longer be known there)
 	useReg := withHandler && !hasFaults && rng.Intn(3) == 0
-	tw.Emit(tracefmt.Rec{"ev": "reset", "n": n, "mode": "sched", "handler": withHandler, "closefail": s.CloseFail})
+	hasWriteFault := false
+	for _, k := range s.Kind {
+		hasWriteFault = hasWriteFault || k == "wreset" || k == "wclosed"
+	}
+	parkLoop := hasWriteFault && !hasEOF // an eof thread has to read its packets and the EOF
+	tw.Emit(tracefmt.Rec{"ev": "reset", "n": n, "mode": "sched", "handler": withHandler, "closefail": s.CloseFail,
+		"autoread": !parkLoop})
 	r := newRig(tw, st, withHandler, s.CloseFail)
+	if parkLoop {
+		// the read loop is parked (as during a server switch): it will not notice a dead socket
+		r.conn.SetAutoReading(false)
+	}
 	c := sched.New(nil, "cc.close.enter", "cc.once", "sh.switch.installed")
 	c.Install()
 	if !hasEOF {
@@ -401,7 +447,7 @@ func runStress(tw *lineWriter, st *stats, n int, rng *rand.Rand) {
 	failClose := rng.Intn(3) == 0
 	tw.Emit(tracefmt.Rec{"ev": "reset", "n": n, "mode": "stress", "handler": true, "closefail": failClose})
 	r := newRig(tw, st, true, failClose)
-	kinds := []string{"close", "unknown", "closewith", "write", "write", "switch", "switchw"}
+	kinds := []string{"close", "unknown", "closewith", "write", "write", "switch", "switchw", "wreset", "wclosed"}
 	panics := []string{"none", "perr", "pstr", "prt", "pnil"}
 	var faults []string
 	for k := rng.Intn(6); k > 0; k-- {
